@@ -99,6 +99,7 @@ inductive Tok
   | vbt (x : Dbl)         -- header `" %.g"` (ampl_vbtol)
   | cmt (s : String)      -- `\t#…` comment up to the end of the line
   | eol                   -- `\n`
+  | bad                   -- what `TextFormatter::apr` prints for `%d` of INT_MIN (`i = -i` overflows): not a number
 deriving DecidableEq, Repr, Inhabited
 
 inductive Err
